@@ -55,7 +55,7 @@ GOSET = ('if (self->enabled) { self->m_obj.guard = &self->m_mutex; self->m_mutex
 def handle_entries(hname, props, sh=False, where=None, lock='m_handle_lock'):
     """contracts of lock_handle / shared_lock_handle members; sh: the lock object is a shared_lock"""
     L = 'self->' + lock
-    SRC = 'vf_unnamed1_->' + lock
+    SRC = '$ARG1->' + lock
     Wn = 'WS' if sh else 'WX'
     rel_cnt = 'vf_n_rel == __CPROVER_old(vf_n_rel) + (__CPROVER_old(%s.owns) ? 1 : 0)' % L
     held_cnt = 'vf_held == __CPROVER_old(vf_held) - (__CPROVER_old(%s.owns) ? 1 : 0)' % L
@@ -87,24 +87,24 @@ def handle_entries(hname, props, sh=False, where=None, lock='m_handle_lock'):
                  ('C08', '!vf_exc && ' + G1, 'no exception')],
         assigns=['*self, ' + GHOST_ASSIGNS, mtx_assign]))
     put(hname + r'::ctor_move', dict(
-        props=props, setup=HSET('vf_unnamed1_', lock),
-        requires=[WSRC + ' && self != vf_unnamed1_ && !vf_exc'],
-        ensures=[('C08', 'self->data == __CPROVER_old(vf_unnamed1_->data) && %s.owns == __CPROVER_old(%s.owns) && %s.m == __CPROVER_old(%s.m)' % (L, SRC, L, SRC),
+        props=props, setup=HSET('$ARG1', lock),
+        requires=[WSRC + ' && self != $ARG1 && !vf_exc'],
+        ensures=[('C08', 'self->data == __CPROVER_old($ARG1->data) && %s.owns == __CPROVER_old(%s.owns) && %s.m == __CPROVER_old(%s.m)' % (L, SRC, L, SRC),
                   'the new handle takes over pointer and lock'),
                  ('C08', '!%s.owns && %s.m == 0' % (SRC, SRC), 'the moved-from handle owns nothing (it can be destroyed without releasing)'),
                  ('C01 C02 C08', 'vf_n_mutex_ops == __CPROVER_old(vf_n_mutex_ops) && vf_held == __CPROVER_old(vf_held) && vf_n_rel == __CPROVER_old(vf_n_rel)', 'a move performs no mutex operation'),
                  ('', '!vf_exc', 'noexcept')],
-        assigns='*self, *vf_unnamed1_'))
+        assigns='*self, *$ARG1'))
     put(hname + r'::op_assign_move', dict(
-        props=props, setup=HSET('self', lock) + ' ' + HSET('vf_unnamed1_', lock),
-        requires=[WL + ' && ' + WSRC + ' && self != vf_unnamed1_ && !vf_exc && (!%s.owns || vf_held >= 1) && ' % L + R1 +
+        props=props, setup=HSET('self', lock) + ' ' + HSET('$ARG1', lock),
+        requires=[WL + ' && ' + WSRC + ' && self != $ARG1 && !vf_exc && (!%s.owns || vf_held >= 1) && ' % L + R1 +
                   ' && (!(%s.owns && %s.owns) || %s.m != %s.m)' % (L, SRC, L, SRC)],
-        ensures=[('C08', 'self->data == __CPROVER_old(vf_unnamed1_->data) && %s.owns == __CPROVER_old(%s.owns) && %s.m == __CPROVER_old(%s.m)' % (L, SRC, L, SRC),
+        ensures=[('C08', 'self->data == __CPROVER_old($ARG1->data) && %s.owns == __CPROVER_old(%s.owns) && %s.m == __CPROVER_old(%s.m)' % (L, SRC, L, SRC),
                   'the target takes over pointer and lock'),
                  ('C08', '!%s.owns && %s.m == 0' % (SRC, SRC), 'the moved-from handle owns nothing'),
                  ('C01 C02 C08', rel_cnt + ' && ' + held_cnt + ' && ' + freed, "the target's previous lock is released exactly once iff it was owned"),
                  ('', '__CPROVER_return_value == self && !vf_exc && ' + G1, 'returns *this')],
-        assigns=['*self, *vf_unnamed1_, ' + GHOST_ASSIGNS, mtx_assign]))
+        assigns=['*self, *$ARG1, ' + GHOST_ASSIGNS, mtx_assign]))
     put(hname + r'::(op_arrow|op_deref)', dict(
         props=props, requires=['!vf_exc'], no_replace=True,
         ensures=[('C08', '__CPROVER_return_value == self->data && !vf_exc', 'returns the stored pointer, no effects')],
